@@ -208,6 +208,7 @@ class Exec:
         self.aliases = aliases or {}
         self.frozen = set(frozen)   # names whose re-assignment is ignored (kept as input symbols)
         self.probes = []   # (target_text, path, value)
+        self.inplace = []  # (base name, target text, path) of element/masked/attribute stores
         self.loops = []    # dict(index=..., state=[names], final={name: E}, path=...)
         self.tests = []    # (path, test_text, E or None)
 
@@ -417,6 +418,16 @@ class Exec:
                 # (e.g. the result of a call): it stays the declared input symbol
                 value = self.env0[target.id]
             self.env[target.id] = value
+        elif isinstance(target, (ast.Subscript, ast.Attribute)):
+            # an element / masked / attribute store changes the value the base name denotes: every later
+            # use of that name is no longer the expression bound to it (unless the kernel declares the
+            # store as its output slot, see `store_slots`)
+            base = target
+            while isinstance(base, (ast.Subscript, ast.Attribute)):
+                base = base.value
+            if isinstance(base, ast.Name) and base.id not in getattr(self, "store_slots", ()):
+                self.env[base.id] = Opaque("modified in place by `%s = ...`" % txt)
+                self.inplace.append((base.id, txt, tuple(path)))
         self.probes.append((txt, tuple(path), value))
 
     def try_ev(self, n):
@@ -1091,11 +1102,13 @@ def tables_group():
         sfn2 = [n for n in ast.walk(stree2) if isinstance(n, ast.FunctionDef) and n.name == "steady_state_transport_solver"][0]
         plumb = []
         for n in ast.walk(sfn2):
-            if isinstance(n, ast.Assign):
-                t = ast.unparse(n.targets[0])
-                v = ast.unparse(n.value)
+            if isinstance(n, (ast.Assign, ast.AugAssign)):
+                tg = n.targets[0] if isinstance(n, ast.Assign) else n.target
+                t = ast.unparse(tg)
+                v = ast.unparse(n.value) if isinstance(n, ast.Assign) else "%s= %s" % (type(n.op).__name__, ast.unparse(n.value))
+                # every in-place (element, slice or masked) store of the function is plumbing
                 if any(k in v for k in ("fftshift(", "ifftshift(", "np.pad(", "fft2(", "ifft2(", "np.linspace(", "np.meshgrid(", "np.squeeze(")) or \
-                        t in ("conc", "flx", "pad_width", "dlx, dly", "tfftq0", "msk[0, 0]", "tfftp[0, 0, 0]", "tfftq[:, 0, 0]") or t.startswith("tfftq0"):
+                        t in ("conc", "flx", "pad_width", "dlx, dly", "tfftq0") or isinstance(tg, (ast.Subscript, ast.Attribute)):
                     plumb.append((t, v))
         plumb.sort()
         lines.append("def solverPlumbing : List (String × String) := [%s]" % ", ".join('("%s", "%s")' % (a.replace('"', "'"), b.replace('"', "'")) for a, b in plumb))
